@@ -159,6 +159,27 @@ def run(res, tier, rng, table_diffs=()):
                 if ta != tb and not (op in ("&&", "||") and ta == tb == "bool"):
                     e = "err Type"
                 cases.append(("cross", src, e))
+    # CHAINS at the range ends: every intermediate result must be in range — `x + 1 - 1` at MAX_INT is an error, not MAX_INT (an
+    # algebraic simplification of a chain of literal terms drops the error of the intermediate step)
+    def chain_expect(x, steps):
+        v = x
+        for op, k in steps:
+            v = v + k if op == "+" else v - k if op == "-" else v * k
+            if not (MINI <= v <= MAXI):
+                return "err Type"
+        return "ok i:%d" % v
+    ends = [MAXI - d for d in range(0, 6)] + [MINI + d for d in range(0, 6)] + [0, 7, -7]
+    chains = [[("+", 1), ("-", 1)], [("-", 1), ("+", 1)], [("+", 5), ("-", 2)], [("-", 5), ("+", 2)], [("+", 3), ("+", 2)], [("-", 3), ("-", 2)],
+              [("+", 1), ("-", 1), ("+", 1)], [("*", 2), ("-", 1)], [("+", 0), ("-", 0)], [("-", 2), ("-", 3), ("+", 5)]]
+    for x in ends:
+        xs = lit(x)
+        for ch in chains:
+            e = chain_expect(x, ch)
+            tail = " ".join("%s %d" % (op, k) for op, k in ch)
+            cases.append(("chain-var", "stel x = %s; x %s" % (xs, tail), e))
+            cases.append(("chain-param", "functie(x) { x %s }(%s)" % (tail, xs), e))
+            cases.append(("chain-paren", "stel x = %s; ((x %s) %s)" % (xs, "%s %d" % ch[0], " ".join("%s %d" % (op, k) for op, k in ch[1:])), e))
+            cases.append(("chain-steps", "stel x = %s; stel y = x %s %d; y %s" % (xs, ch[0][0], ch[0][1], " ".join("%s %d" % (op, k) for op, k in ch[1:])), e))
     # a value compared with ITSELF (same variable, alias, same element, same parameter): NaN is not equal to itself
     from .. import enum as _enum
     for p in _enum.same_object_programs():
